@@ -211,9 +211,18 @@ def module_mutables(prog, modules):
                     kind = "set"
                 elif isinstance(v, ast.Call) and ast.unparse(v.func) in ("dict", "list", "set", "defaultdict", "collections.defaultdict", "OrderedDict", "collections.OrderedDict", "WeakValueDictionary", "weakref.WeakValueDictionary", "threading.local", "local"):
                     kind = ast.unparse(v.func)
+                elif isinstance(v, ast.GeneratorExp):
+                    kind = "one-shot iterator (generator expression)"
+                elif isinstance(v, ast.Call) and ast.unparse(v.func) in ONE_SHOT:
+                    kind = "one-shot iterator (%s)" % ast.unparse(v.func)
                 if kind:
                     out.append((m, name, prog.site(m, v, short + ".<module>"), kind))
     return out
+
+
+# constructors whose result is consumed by iterating it: a module-level value of this kind is
+# state that the first use changes for every later use
+ONE_SHOT = {"zip", "map", "filter", "iter", "enumerate", "reversed", "open", "itertools.chain", "chain", "itertools.islice", "islice", "itertools.product", "product", "itertools.zip_longest", "zip_longest", "itertools.starmap", "starmap", "itertools.cycle", "cycle", "itertools.count", "count"}
 
 
 def name_uses(prog, modname, name):
